@@ -285,6 +285,16 @@ func (c *Ctl) Step() string {
 	return at
 }
 
+// Note appends a harness-made event (an API call) to the implementation-level stream.
+func (c *Ctl) Note(point string, args ...any) {
+	if !c.Record {
+		return
+	}
+	c.mu.Lock()
+	c.events = append(c.events, Event{Seq: len(c.events) + 1, Point: point, Args: args})
+	c.mu.Unlock()
+}
+
 // Events returns the implementation-level events recorded so far.
 func (c *Ctl) Events() []Event {
 	c.mu.Lock()
